@@ -20,6 +20,7 @@ package datasource
 import (
 	"database/sql"
 	"reflect"
+	"strconv"
 )
 
 type nullTime = sql.NullTime
@@ -128,7 +129,40 @@ func DeepEqual(x, y interface{}) bool {
 		return flx == fly
 	}
 
+	// character / binary values: the image holds []byte or string, the current row is scanned as a string
+	tx, isTextx := parseTextIfOk(typx)
+	ty, isTexty := parseTextIfOk(typy)
+	if isTextx && isTexty {
+		return tx == ty
+	}
+	// DECIMAL: the image holds the float64 the column was scanned into, the current row its decimal text
+	if okx && isTexty {
+		if f, err := strconv.ParseFloat(ty, 64); err == nil {
+			return flx == f
+		}
+		return false
+	}
+	if oky && isTextx {
+		if f, err := strconv.ParseFloat(tx, 64); err == nil {
+			return fly == f
+		}
+		return false
+	}
+
 	return reflect.DeepEqual(typx.Interface(), typy.Interface())
+}
+
+// parseTextIfOk returns the content of a string or a byte slice
+func parseTextIfOk(val reflect.Value) (string, bool) {
+	switch val.Kind() {
+	case reflect.String:
+		return val.String(), true
+	case reflect.Slice:
+		if val.Type().Elem().Kind() == reflect.Uint8 {
+			return string(val.Bytes()), true
+		}
+	}
+	return "", false
 }
 
 // parseIntIfOk returns sign and magnitude of an integer kind (zero is never negative)
